@@ -59,14 +59,17 @@ CHECKS = {
         technique="Lean 4 data-structure invariants + refinement of the player to an abstract merge + differential runs (C harness, ovnidump, ovniemu)",
         design="DESIGN.md §5 C03"),
     "C04": dict(
-        text=("Theorems (Props/C04.lean, 17) over the reference emulator (Emu/Core.lean: transcription of ovni/event.c pre_thread_*, "
+        text=("Theorems (Props/C04.lean, 27) over the reference emulator (Emu/Core.lean: transcription of ovni/event.c pre_thread_*, "
               "thread.c, cpu.c with the exact channel semantics) against a specification automaton written from the property "
               "text (Legal / specThread / SpecAccepts): the invariant WF of reachable states holds initially and is preserved "
               "by every accepted OH* event (wf_init, wf_step); in a WF state preThread succeeds IFF the transition is Legal "
               "and no physical CPU gets a second running thread (thread_accept_iff); a whole OH* history on any number of "
               "threads (never executing a dead thread) is accepted IFF every step is legal, no physical CPU is ever "
-              "oversubscribed and all threads end dead (history_accept_iff; stepEv_history_accept_partial relates it to the "
-              "full step including record emission - the converse needs records to be total, OPEN); after every accepted "
+              "oversubscribed and all threads end dead (history_accept_iff); the same equivalence holds for the FULL step "
+              "including record emission under NoZeroIds (non-zero TIDs/PIDs, no forbidden 0 on a model channel; true of every "
+              "initial state by noZeroIds_init): records is total there (records_total), the full step can only differ from "
+              "the emulator step by the forbidden-zero error (stepEv_rejects_only_zero), so stepEv_history_accept_iff; "
+              "tid_zero_records_fail (decide) shows the side condition is needed; after every accepted "
               "prefix the state channel holds the spec state and the TID channel the TID exactly while running, cooling or "
               "warming, and those are the Paraver records emitted (reaches_spec, state_view, state_records). Tie: random "
               "walks over an independent Python re-statement of the automaton with single illegal steps, a transition matrix, "
@@ -78,7 +81,7 @@ CHECKS = {
         technique="Lean 4 invariant + iff against an independent spec automaton by induction over histories + differential ovniemu runs",
         design="DESIGN.md §5 C04"),
     "C05": dict(
-        text=("Theorems (Props/C05.lean, 17) over the same model, for histories of OH* and OAs/OAr events in any interleaving: "
+        text=("Theorems (Props/C05.lean, 19) over the same model, for histories of OH* and OAs/OAr events in any interleaving: "
               "thread-in-CPU-list membership and index invariants (cpu_membership_inv, index_inv); in every reachable state "
               "every physical CPU has at most one running thread and a step that would create two is rejected "
               "(no_phys_oversub, thread_/execute_on_busy_/affinity_set_/affinity_remote_oversub_rejected) while the virtual "
@@ -86,7 +89,9 @@ CHECKS = {
               "(affinity_set_accept_iff, affinity_remote_accept_iff; the remote change to the thread's current CPU is "
               "rejected by the code and documented: remote_same_cpu_rejected); after every accepted step the nrun channel is "
               "the number of running threads bound to the CPU and tid/pid are those of the unique one, null otherwise, and "
-              "those are the cpu.prv records emitted (cpu_view, cpu_view_step, cpu_records). Tie: affinity-heavy histories "
+              "those are the cpu.prv records emitted (cpu_view, cpu_view_step, cpu_records); record emission is total for "
+              "OH*/OAs/OAr steps and the fold of the full step reaches exactly the states of the emulator fold "
+              "(records_total_affinity, stepRun_iff_emuRun). Tie: affinity-heavy histories "
               "over several threads, CPUs and looms, witnesses and bounded-exhaustive words: real ovniemu -l vs the Lean "
               "reference emulator and vs an independent oracle recomputing cpu.prv types 1,2,3 from thread.prv types 4,6."),
         note=TB + "; findRemote / loomGetCpu are static lookups proved invariant under steps",
@@ -229,13 +234,16 @@ CHECKS = {
         technique="Lean 4 theorems over a byte-level cursor with adversarial out-of-file memory + single-corruption differential runs",
         design="DESIGN.md §5 C12"),
     "C13": dict(
-        text=("Theorems (Props/C13.lean, 16) over the Paraver writer model (prv_advance guard, lines written at the current "
+        text=("Theorems (Props/C13.lean, 25) over the Paraver writer model (prv_advance guard, lines written at the current "
               "time, header rewritten at close) and the record generation of the reference emulator: for every accepted "
               "sequence of steps the lines are in non-decreasing time order, none is later than the header duration, which is "
               "the clock of the last step (prv_times_monotone), a backwards step is refused; every record belongs to the row "
               "gindex+1 of an existing thread/CPU and its type is one of the types declared in the matching .pcf "
               "(records_rows_types, with specs_consistent by decide over regenerated specs); table/initial/default values are "
-              "labelled (init_values_labelled + C08 tables_labelled); the .row file has one name per row. Tie: on every "
+              "labelled (init_values_labelled + C08 tables_labelled); for accepted OH*/OA* steps a thread-state record carries one "
+              "of the six labelled state codes of its row's thread and a CPU record 0 or gindex+1 of an existing CPU the "
+              "thread is bound to (records_values_labelled_ovni), and record emission fails only on a forbidden zero "
+              "(records_error_only_zero); the .row file has one name per row. Tie: on every "
               "accepted generated trace independent Python parsers check thread/cpu .prv/.pcf/.row (time order, row range, "
               "duration = last event time, types declared, state values labelled, row names in documented order) and the "
               "timelines equal the Lean reference emulator's. Found and repaired: cpu.pcf did not declare CPU types 1,2,3."),
